@@ -48,6 +48,12 @@ Oracles (C20 on the real code alone; names as in c20_pairs / c20_edge)
   meaning_change_is_unequal                               script gate-level meaning differs => False in both orders
   different_declarations_or_meaning_different_text        both generate => the generated texts differ
 
+Budget: the fixed part (configuration battery, identifier grid, one pass over every dimension x threshold) is about 1200 pairs in
+the quick tier (every other entry of the battery / grid, alternating with the seed; one kind of change per size above 100) and about
+2700 in the thorough tier (everything); `n` beyond that is spent on random identifier pairs (7/8) and small random scale cases (1/8).
+The mutant of a program of more than 100 units is compared but not re-checked on its own (reflexivity / re-parse are checked on the
+original).  Deep recursion is slow in CPython, hence few cases of depth > 64.  Recommended: quick n=2000, thorough n=8000.
+
 Run: PYTHONPATH=/verif /venv/bin/python /verif/harness/agents/c20_scale.py [--n N] [--seed S] [--thorough]
 """
 import argparse
@@ -415,7 +421,7 @@ def ev_stmt(s, env, penv):
 
 
 UNROLL = 12
-UNROLL_NODES = 4000
+UNROLL_NODES = 400
 EMPTY = ("seq", ())
 
 
@@ -566,7 +572,8 @@ class Real:
 
     def scratch(self):
         if self.dir is None:
-            self.dir = tempfile.mkdtemp(prefix="c20_scale_")
+            shm = "/dev/shm" if os.path.isdir("/dev/shm") and os.access("/dev/shm", os.W_OK) else None
+            self.dir = tempfile.mkdtemp(prefix="c20_scale_", dir=shm)
             for name, src in MODULES.items():
                 os.mkdir(os.path.join(self.dir, name))
                 with open(os.path.join(self.dir, name, "__init__.py"), "w") as f:
@@ -705,8 +712,9 @@ class Acc:
             else:
                 o["more_failures"] = o.get("more_failures", 0) + 1
 
-    def parsed(self, text, cfg):
-        """-> (status, circuit, generated text | None); the program-level oracles are evaluated once per distinct (text, cfg)"""
+    def parsed(self, text, cfg, program=True):
+        """-> (status, circuit, generated text | None); the program-level oracles are evaluated once per distinct (text, cfg)
+        (program=False: not for this text -- the mutant of a large program, whose original has just been checked)"""
         key = (text, cfg_key(cfg))
         if key not in self.cache:
             if len(self.cache) > 64:
@@ -719,7 +727,8 @@ class Acc:
                 if gen is None:
                     self.dist[f"generate_fails:{stg}"] += 1
                 self.cache[key] = (st, c, gen)
-                self.program_oracles(text, cfg, c, gen)
+                if program:
+                    self.program_oracles(text, cfg, c, gen)
             else:
                 self.dist[f"program_rejected:{st}"] += 1
                 self.cache[key] = (st, None, None)
@@ -743,7 +752,7 @@ class Acc:
 def pair_oracles(acc, case):
     cfg = case["cfg"]
     sa, ca, ga = acc.parsed(case["a"], cfg)
-    sb, cb, gb = acc.parsed(case["b"], cfg)
+    sb, cb, gb = acc.parsed(case["b"], cfg, program=not case.get("light"))
     if sa != "ok" or sb != "ok":
         acc.dist["pair_skipped_a_side_rejected"] += 1
         return None
@@ -768,7 +777,7 @@ def pair_oracles(acc, case):
 
 def token_diff(ta, tb):
     """how the two texts differ, token-wise (distribution only; comments are not tokens)"""
-    strip = lambda t: re.sub(r"/\*(\n|[^\n])*?\*/", " ", re.sub(r"//[^\n]*", " ", t))  # noqa
+    strip = lambda t: re.sub(r"/\*(\n|[^\n])*?\*/|//[^\n]*", " ", t)  # noqa
     split = lambda t: re.findall(r"[A-Za-z_][A-Za-z0-9_.]*|[-+]?[0-9]*\.?[0-9]+(?:[eE][-+]?[0-9]+)?|[^\s;|]", strip(t))  # noqa
     a, b = split(ta), split(tb)
     if len(a) == len(b):
@@ -892,11 +901,19 @@ def mutate_gate(s, mk, o, bump):
 UNIT_MUTS = ["gate", "index", "arg", "drop_arg", "add_arg", "insert"]
 
 
+def prepare_units(units, k, mk, o):
+    """an anonymous gate keeps the number of arguments of its first use: the unit whose argument list changes gets a name of its own
+    (on BOTH sides)"""
+    if mk in ("drop_arg", "add_arg") and not o["typed"]:
+        return units[:k] + [G("U", *units[k][2])] + units[k + 1:]
+    return units
+
+
 def mutate_units(units, k, mk, o):
     if mk == "insert":
         if o["typed"]:
             return None
-        return units[:k] + [G("G")] + units[k:]
+        return units[:k] + [G("U0")] + units[k:]
     m = mutate_gate(units[k], mk, o, len(units) + 7)
     if m is None:
         return None
@@ -908,7 +925,7 @@ def head_r(o, extra=()):
 
 
 def b_top(N, k, mk, side, o):
-    units = [unit(i, o) for i in range(N)]
+    units = prepare_units([unit(i, o) for i in range(N)], k, mk, o)
     if side:
         units = mutate_units(units, k, mk, o)
     return None if units is None else {"head": head_r(o), "items": units}
@@ -918,13 +935,13 @@ BLOCK_KINDS = ["seq", "par", "loop2", "loop13", "parloop", "sub", "sub3", "macro
 
 
 def b_block(N, k, mk, side, o):
-    units = [unit(i, o) for i in range(N)]
+    units = prepare_units([unit(i, o) for i in range(N)], k, mk, o)
     if side:
         units = mutate_units(units, k, mk, o)
     if units is None:
         return None
     kind = o["kind"]
-    first = G("Y" if o["typed"] else "H", IX("r", 0))
+    first = G("Y" if o["typed"] else "F", IX("r", 0))
     if kind == "seq":
         items = [("blk", False, units)]
     elif kind == "par":
@@ -977,7 +994,7 @@ def b_depth(N, k, mk, side, o):
     """N nested blocks around one gate; mk: gate / index / arg (the innermost gate), count@ (loop / subcircuit count of level k),
     sibling@ (the gate standing beside the nested block at level k)"""
     levels, counts, sibs = o["levels"], o["counts"], o["sibs"]
-    g0 = unit(1 if o["typed"] else 3, o)
+    g0 = unit(1, o) if o["typed"] else G("G", IX("r", 3 % o["nq"]), V("3"), V("0.123456789"))
     if side and mk in ("gate", "index", "arg"):
         g0 = mutate_gate(g0, mk, o, 7)
         if g0 is None:
@@ -1241,16 +1258,16 @@ def b_iters(N, k, mk, side, o):
 
 DIMS = {
     # name: (builder, mutation kinds, largest size quick, largest size thorough)
-    "top_stmts": (b_top, UNIT_MUTS, 1000, 4000),
+    "top_stmts": (b_top, UNIT_MUTS, 1000, 2000),
     "block_stmts": (b_block, UNIT_MUTS, 1000, 2000),
     "depth": (b_depth, ["gate", "index", "arg", "count@", "sibling@"], 256, 300),
     "macro_chain": (b_macro_chain, ["gate@", "arg@", "target@", "index", "callarg"], 257, 300),
     "alias_chain": (b_alias_chain, ["start@", "src@", "index"], 129, 130),
     "lets": (b_lets, ["value@", "ref"], 1000, 2000),
-    "maps": (b_maps, ["index@", "ref"], 1000, 2000),
-    "macros": (b_macros, ["body@", "gate@", "call"], 1000, 1000),
+    "maps": (b_maps, ["index@", "ref"], 300, 2000),
+    "macros": (b_macros, ["body@", "gate@", "call"], 300, 1000),
     "args": (b_args, ["arg@", "drop_last", "add_last"], 1000, 2000),
-    "params": (b_params, ["ref", "callarg@"], 1000, 2000),
+    "params": (b_params, ["ref", "callarg@"], 300, 2000),
     "reg_size": (b_reg_size, ["index", "size", "size_sliced"], 1000, 70000),
     "iters": (b_iters, ["loop", "parloop", "sub"], 1000, 100000),
 }
@@ -1323,14 +1340,16 @@ def sizes_for(rng, dim, thorough):
     cap = DIMS[dim][3 if thorough else 2]
     out = []
     for t in THRESHOLDS:
-        for n in ((t + 1, t, rng.randint(t + 2, 2 * t - 1)) if thorough else (t + 1, rng.randint(t, 2 * t - 1)) if t < 128 else (t + 1,)):
+        for n in ((t + 1, t, rng.randint(t + 2, 2 * t - 1)) if thorough else (t + 1,)):
             if n <= cap:
                 out.append(n)
     out.append(min(cap, 1000 if not thorough else cap))
     if dim in ("depth",):
-        out += [20, 40, 100, 160]
+        out += [20, 40] + ([100, 160] if thorough else [])
     if dim in ("macro_chain", "alias_chain"):
         out += [33, 65, 100]
+    if dim == "alias_chain" and not thorough:
+        out = [9, 17, 33, 65, 129]
     if dim in ("lets", "maps"):
         out += [49, 100]
     if dim in ("top_stmts", "block_stmts"):
@@ -1339,7 +1358,10 @@ def sizes_for(rng, dim, thorough):
         out += [34, 255, 65535, 65536]
     if dim == "reg_size":
         out += [255, 256, 257] + ([65535, 65536, 65537] if thorough else [])
-    return [n for n in out if n <= cap]
+    return sorted(set(n for n in out if n <= cap))
+
+
+UNTYPED_ONLY = {"args"}
 
 
 def scale_plan(rng, thorough):
@@ -1347,37 +1369,56 @@ def scale_plan(rng, thorough):
     plan = []
     for dim in DIMS:
         for N in sizes_for(rng, dim, thorough):
-            plan.append((dim, N, rng.random() < 0.25))
+            plan.append((dim, N, rng.random() < 0.25 and dim not in UNTYPED_ONLY))
     return plan
 
 
-def scale_pairs(rng, dim, N, typed, per_size):
-    """-> [(A, B, tags)]"""
+PRIMARY = {"top_stmts": ["gate", "index", "arg"], "block_stmts": ["gate", "index", "arg"], "depth": ["arg", "count@"], "macro_chain": ["arg@", "target@"],
+           "alias_chain": ["start@", "src@"], "lets": ["value@", "ref"], "maps": ["index@", "ref"], "macros": ["body@", "call"], "args": ["arg@", "drop_last"],
+           "params": ["ref", "callarg@"], "reg_size": ["index", "size"], "iters": ["loop", "parloop", "sub"]}
+
+
+HEAVY = {"depth": 70, "alias_chain": 40, "macro_chain": 200, "macros": 200}     # beyond: one primary kind per size (running time)
+
+
+def scale_pairs(rng, dim, N, typed, extra, primary=True, heavy=300):
+    """-> [(A, B, tags)]: one pair per PRIMARY kind of change at the LAST unit (beyond every threshold below N; for chains also the
+    far end seen from the use) -- only one of them when N > 300 (HEAVY) --, then `extra` pairs with a random kind of change at the first /
+    middle / a threshold position"""
     build, muts, _, _ = DIMS[dim]
     o = scale_options(rng, dim, N, typed)
+    todo = []
+    if primary:
+        kinds = PRIMARY[dim] if N <= min(heavy, HEAVY.get(dim, 300)) else [rng.choice(PRIMARY[dim])]
+        todo += [(mk, True) for mk in kinds]
+    todo += [(None, False)] * extra
     out = []
-    tries = 0
-    while len(out) < per_size and tries < 6 * per_size:
-        tries += 1
-        mk = rng.choice(muts)
-        k = rng.choice(positions(rng, N, 4))
-        if dim == "depth" and mk == "count@":
-            ks = [i for i, lv in enumerate(o["levels"]) if lv != "seq" and lv != "par"]
-            if not ks:
+    for mk, last in todo:
+        for attempt in range(6):
+            m = mk or rng.choice(muts)
+            k = N - 1 if last else rng.choice(positions(rng, N, 4))
+            if dim == "depth" and m == "count@":
+                ks = [i for i, lv in enumerate(o["levels"]) if lv != "seq" and lv != "par"]
+                if not ks:
+                    continue
+                k = ks[-1] if last else rng.choice([ks[0], rng.choice(ks)])
+            if dim == "depth" and m == "sibling@":
+                ks = [i for i, sb in enumerate(o["sibs"]) if sb]
+                if not ks:
+                    continue
+                k = ks[-1] if last else rng.choice(ks)
+            if dim in ("macro_chain", "alias_chain") and last:
+                k = rng.choice([0, 1, N - 1]) if m != "src@" and m != "target@" else rng.choice([2, N - 1])
+            A = build(N, k, m, 0, o)
+            B = build(N, k, m, 1, o)
+            if A is None or B is None:
+                if mk is not None and attempt >= 2:
+                    break
                 continue
-            k = rng.choice([ks[-1], ks[0], rng.choice(ks)])
-        if dim == "depth" and mk == "sibling@":
-            ks = [i for i, s in enumerate(o["sibs"]) if s]
-            if not ks:
-                continue
-            k = rng.choice([ks[-1], rng.choice(ks)])
-        A = build(N, k, mk, 0, o)
-        B = build(N, k, mk, 1, o)
-        if A is None or B is None:
-            continue
-        tags = {"stream": "scale", "dim": dim, "size": N, "mutation": f"{dim}:{mk}", "position": pos_class(k, N), "k": k,
-                "typed": typed, "variant": o.get("kind") or o.get("pattern") or o.get("use") or o.get("ctx")}
-        out.append((A, B, tags))
+            tags = {"stream": "scale", "dim": dim, "size": N, "mutation": f"{dim}:{m}", "position": pos_class(k, N), "k": k,
+                    "typed": typed, "variant": o.get("kind") or o.get("pattern") or o.get("use") or o.get("ctx"), "light": N > 100}
+            out.append((A, B, tags))
+            break
     return out
 
 
@@ -1447,7 +1488,7 @@ def name_pairs(rng, thorough):
                 z = b + ".z"
             out.append((x, y, z, "family:" + ("dotted" if "." in x + y else "plain")))
     for grp, label in ((KEYWORDISH, "keywordish"), (PREPARE, "prepare_measure"), (INTERNAL, "internal_marker"), (LOOKALIKE, "lookalike")):
-        k = len(grp) * 2 if thorough else 10
+        k = len(grp) * 2 if thorough else 25
         for _ in range(k):
             x, y, z = rng.sample(grp, 3)
             out.append((x, y, z, label))
@@ -1517,7 +1558,7 @@ def ident_pair(role, x, y, z, nb, ctx, o):
             if nb == "z_is_let":
                 head = [("let", z, "3")] + head
                 if not typed:
-                    pre.append(G(g, IX("rr", 0), V(z)))
+                    pre.append(G("LL", IX("rr", 0), V(z)))
             if nb == "pre_y":
                 pre.append(G(y, *sargs))
             if nb == "pre_x_post_y":
@@ -1782,19 +1823,23 @@ def run(seed: int, n: int, driver: str = DEFAULT_DRIVER, thorough: bool = False)
     _lap("start")
     try:
         with alarm_handler():
-            # ---- configurations: the battery under every combination (always complete)
+            # ---- configurations: the battery under every combination (thorough: complete)
             rng = random.Random(f"{seed}:c20_scale:config")
             for typed, cfgs in ((False, ANON_CFGS), (True, TYPED_CFGS)):
                 bat = battery(typed)
-                for cfg in cfgs:
-                    for what, A, B in bat:
+                for ci, cfg in enumerate(cfgs):
+                    for bi, (what, A, B) in enumerate(bat):
+                        if not thorough and (bi + ci + seed) % 2:
+                            continue        # quick tier: every other change of the battery, alternating with the configuration and the seed
                         deco = random_deco(rng, 0.15)
                         process(acc, A, B, {"stream": "config", "what": what, "typed": typed}, cfg, deco)
             acc.dist["config_pairs"] = acc.dist["pairs_generated"]
             _lap("config")
-            # ---- identifiers: the core grid, then random roles x names x neighbours x contexts
+            # ---- identifiers: the core grid (thorough: complete), then random roles x names x neighbours x contexts
             rng = random.Random(f"{seed}:c20_scale:ident")
-            for role, x, y, z, nb, ctx, typed in ident_core():
+            for ii, (role, x, y, z, nb, ctx, typed) in enumerate(ident_core()):
+                if not thorough and (ii + seed) % 2:
+                    continue        # quick tier: every other entry of the grid, alternating with the seed
                 built = ident_pair(role, x, y, z, nb, ctx, ident_options(rng, typed))
                 if built is None:
                     acc.dist["combination_not_expressible"] += 1
@@ -1806,9 +1851,9 @@ def run(seed: int, n: int, driver: str = DEFAULT_DRIVER, thorough: bool = False)
             _lap("ident core")
             # ---- scale: every dimension at every threshold
             rng = random.Random(f"{seed}:c20_scale:scale")
-            per_size = 3 if thorough else 2
             for dim, N, typed in scale_plan(rng, thorough):
-                for A, B, tags in scale_pairs(rng, dim, N, typed, per_size if N <= 130 else per_size - 1):
+                for A, B, tags in scale_pairs(rng, dim, N, typed, (1 if N <= 300 else 0) if thorough else (1 if N <= 64 else 0),
+                                              heavy=300 if thorough else 100):
                     process(acc, A, B, tags, pick_cfg(rng, typed, 0.7, passes=N <= 70), random_deco(rng, 0.3) if N <= 300 else None)
             if True:   # one comment per line
                 for N in (9, 17, 33, 65, 129, 257) + ((1001,) if thorough else ()):
@@ -1820,7 +1865,7 @@ def run(seed: int, n: int, driver: str = DEFAULT_DRIVER, thorough: bool = False)
                         process(acc, A, B, tags, ANON, {"comments": 1.0, "dseed": rng.randrange(10**6), "blank": rng.random() < 0.3})
             acc.dist["scale_pairs"] = acc.dist["pairs_generated"] - acc.dist["config_pairs"] - acc.dist["ident_core_pairs"]
             _lap("scale")
-            # ---- the rest of the budget: random identifiers (2/3) and random scale cases (1/3)
+            # ---- the rest of the budget: random identifiers (7/8) and random small scale cases (1/8)
             rng = random.Random(f"{seed}:c20_scale:random")
             budget = max(0, n - acc.dist["pairs_generated"])
             pool = name_pairs(rng, thorough)
@@ -1828,7 +1873,7 @@ def run(seed: int, n: int, driver: str = DEFAULT_DRIVER, thorough: bool = False)
             while budget > 0 and tries < 20 * n + 1000:
                 tries += 1
                 before = acc.dist["pairs_generated"]
-                if rng.random() < 0.67:
+                if rng.random() < 0.88:
                     x, y, z, label = rng.choice(pool)
                     if rng.random() < 0.5:
                         x, y = y, x
@@ -1846,11 +1891,11 @@ def run(seed: int, n: int, driver: str = DEFAULT_DRIVER, thorough: bool = False)
                     process(acc, built[0], built[1], tags, pick_cfg(rng, typed, 0.75), random_deco(rng, 0.25))
                 else:
                     dim = rng.choice(list(DIMS))
-                    cap = min(DIMS[dim][2], 300)
+                    cap = min(DIMS[dim][2], 40 if dim == "alias_chain" else 34 if dim == "depth" else 66)   # (deep recursion is slow)
                     t = rng.choice(THRESHOLDS)
                     N = min(cap, rng.choice([t + 1, t, t - 1, rng.randint(t, 2 * t)]))
-                    typed = rng.random() < 0.25
-                    for A, B, tags in scale_pairs(rng, dim, N, typed, 1):
+                    typed = rng.random() < 0.25 and dim not in UNTYPED_ONLY
+                    for A, B, tags in scale_pairs(rng, dim, N, typed, 1, primary=rng.random() < 0.3):
                         process(acc, A, B, tags, pick_cfg(rng, typed, 0.6, passes=N <= 70), random_deco(rng, 0.3))
                 budget -= acc.dist["pairs_generated"] - before
     finally:
@@ -1885,7 +1930,7 @@ def replay(case: dict, driver: str = DEFAULT_DRIVER) -> dict:
 def main():
     ap = argparse.ArgumentParser()
     ap.add_argument("--driver", default=DEFAULT_DRIVER)
-    ap.add_argument("--n", type=int, default=3000)
+    ap.add_argument("--n", type=int, default=2000)
     ap.add_argument("--seed", type=int, default=20)
     ap.add_argument("--thorough", action="store_true")
     ap.add_argument("--json", action="store_true")
